@@ -5,13 +5,17 @@ from fractions import Fraction
 import numpy as np
 
 RULE = ("cases = every collinear tree within the bounds (chains with the root at one end, roots with one arm on either side; radii 1..3, every "
-        "admissible integer spacing up to max radius + 1: tangent, overlapping and disjoint neighbours) at accuracy levels 1, 2, 3, 4 (5 and 8 for "
-        "a sample, where the Monte-Carlo pair term is exactly zero), each at one of 7 placements and 3 length units, through get_volume and the "
+        "admissible integer spacing up to max radius + 1: tangent, overlapping and disjoint neighbours) at accuracy levels 1, 2, 3, 4 (5, 6, 8, 9 for "
+        "a sample of two-armed roots, mirror-symmetric ones included, where the Monte-Carlo pair term is exactly zero), levels 3-4 again at 2^20 / 2^21 from the origin, each at one of 7 placements and 3 length units, through get_volume and the "
         "feature extractor; plus random trees of any shape on a lattice at levels 1 and 2; non-trivial = at least two nodes whose balls overlap or "
         "unequal radii; distinct by (tree, level)")
 UNITS = [1.0, 0.5, 0.37]
 DIRS = [(1, 0, 0), (0, 0, -1), (2 / 3, 2 / 3, 1 / 3), (0.6, 0.8, 0), (0.3, -0.5, 0.81), (0, 1, 0), (-2 / 7, 3 / 7, 6 / 7)]
 ORGS = [(0, 0, 0), (5, -3, 2), (0, 0, 0), (-3, 4, 0.5), (1.5, -2.25, 3.0), (1, 1, 1), (0, 0, 0)]       # small offsets: the tree stores float32 coordinates
+# far placements: axis directions at 2^20 / 2^21, where lattice coordinates in units 1 and 0.5 are still exact in float32
+# (node spacing is then below 10^-5 of the coordinates: any comparison of positions relative to their size cannot tell neighbours apart)
+DIRS += [(1, 0, 0), (0, 0, -1)]
+ORGS += [(1048576, 0, 0), (0, 0, -2097152)]
 
 
 def mk(pid, xyz, r):
@@ -85,9 +89,19 @@ def run(ctx):
     ctx.run_cases("collinear", cases, path, execute, "Judge_VolTree", keyfn, nontrivial, per_case_timeout=300)
     # Monte-Carlo-bearing levels on two-armed roots (pair term exactly 0: the arms only share the disc through the root) - expensive, so a sample
     two = [c for c in cases if sum(1 for row in c["t"] if row[0] == 0) == 2 and c["level"] >= 3]
-    sample = [dict(c, level=lv) for c, lv in zip(two[:: max(1, len(two) // (2 if q else 12))], [5, 8] * 50)]
+    def symmetric(c):          # both arms of the same length ending in the same radius (mirror images of each other)
+        kids = [row for row in c["t"] if row[0] == 0]
+        return kids[0][1] == -kids[1][1] and kids[0][2] == kids[1][2]
+    sym = [c for c in two if symmetric(c)]
+    asym = [c for c in two if not symmetric(c)]
+    pick = sym[:: max(1, len(sym) // (8 if q else 40))][: (8 if q else 40)] + asym[:: max(1, len(asym) // (6 if q else 40))][: (6 if q else 40)]
+    sample = [dict(c, level=lv) for c, lv in zip(pick, [5, 8, 6, 9] * 50)]
     p = ctx.write_cases("mc-levels", sample)
     ctx.run_cases("mc-levels", sample, p, execute, "Judge_VolTree", keyfn, nontrivial, per_case_timeout=600)
+    deep = [c for c in cases if c["level"] >= 3]
+    far = [dict(c, place=7 + k % 2, unit=k % 2) for k, c in enumerate(deep[:: (3 if q else 1)])]
+    p = ctx.write_cases("far-from-origin", far)
+    ctx.run_cases("far-from-origin", far, p, execute, "Judge_VolTree", keyfn, nontrivial, per_case_timeout=300)
     lc = lattice_cases(ctx, 150 if q else 2000)
     p = ctx.write_cases("lattice", lc)
     ctx.run_cases("lattice", lc, p, execute, "Judge_VolTree", keyfn, nontrivial)
